@@ -27,6 +27,8 @@ func main() {
 			os.Exit(2)
 		}
 		os.Exit(cmdCheck(os.Args[2], os.Args[3]))
+	case "replay":
+		os.Exit(cmdReplay(os.Args[2]))
 	case "selftest":
 		os.Exit(cmdSelftest(os.Args[2:]))
 	case "baseline":
